@@ -61,8 +61,15 @@ class World:
         return self.handler(self, e)
 
 
-def make_method(world_box, provider, name, is_async, uid, wrapped_plain=False, with_signature=False):
-    if is_async:
+def make_method(world_box, provider, name, is_async, uid, wrapped_plain=False, with_signature=False, kwonly=False):
+    if kwonly and not is_async:
+        # the callback declares the injected names as keyword-only parameters (and nothing else)
+        def m(self, *, event=None, state=None, source=None, target=None, event_data=None, machine=None, transition=None, model=None):
+            kwargs = {"event": event, "state": state, "source": source, "target": target, "event_data": event_data,
+                      "machine": machine, "transition": transition, "model": model}
+            return world_box[0].cb(provider, name, self, (), kwargs)
+
+    elif is_async:
         import inspect
 
         async def inner(self, *args, **kwargs):
@@ -111,6 +118,7 @@ def render(am, world_box, class_name=None, strict_states=False, uid=None):
     asyncs = {tuple(x) for x in am.get("async", [])}
     plain_wrapped = {tuple(x) for x in am.get("async_behind_plain_decorator", [])}
     sigged = {tuple(x) for x in am.get("with_signature_attribute", [])}
+    kwonly_view = {tuple(x) for x in am.get("kwonly_view", [])}
     attrs = {}
     states = {}
     for s in am["states"]:
@@ -164,7 +172,7 @@ def render(am, world_box, class_name=None, strict_states=False, uid=None):
     for name in methods.get("machine", []):
         if name in decorated.values():
             continue  # lives on the class as the decorated function above, not as an attribute of its own
-        attrs[name] = make_method(world_box, "machine", name, ("machine", name) in asyncs, uid, ("machine", name) in plain_wrapped, ("machine", name) in sigged)
+        attrs[name] = make_method(world_box, "machine", name, ("machine", name) in asyncs, uid, ("machine", name) in plain_wrapped, ("machine", name) in sigged, ("machine", name) in kwonly_view)
     for name, val in am.get("class_attrs", {}).items():
         attrs[name] = val
     cname = class_name or f"VM{uid}"
